@@ -164,9 +164,22 @@ def judge(oracle, params, n, bits, memo, variant=0):
                     msg = "callback arguments: " + msg
     elif oracle == "C02":
         msg = tm.check_c02(toks, mn, mx, mode)
+        if msg is None and n and variant == 0:
+            # the source fails at read k: whatever was handed over before the failure obeys the same rules
+            k = (bits + n) % (n + 1)
+            part = fault_run(params, frames, k)
+            msg = tm.check_c02(part, mn, mx, mode) or tm.check_c01(frames, part)
+            if msg:
+                msg = "source raising at read %d: %s" % (k, msg)
     elif oracle == "C03":
         fl = [([f[1] for f in d], s, e) for d, s, e in toks]
         msg = tm.check_c03(fl, mn, mx, ms, im, is_, mode)
+        if msg is None and n:
+            k = (bits + n) % (n + 1)
+            part = fault_run(params, frames, k)
+            msg = tm.check_c03([([f[1] for f in d], s_, e_) for d, s_, e_ in part], mn, mx, ms, im, is_, mode)
+            if msg:
+                msg = "source raising at read %d: %s" % (k, msg)
     elif oracle == "C04":
         exp = tm.segment(flags, mn, mx, ms, mode)
         if se != exp:
@@ -220,7 +233,55 @@ def falsy_frames(flags, kind):
     return [() if v else (0,) for v in flags], (lambda f: len(f) == 0)
 
 
+class ScriptedValidator:
+    """A validator whose answer depends only on how many times it has been asked (the k-th call answers for
+    frame k): a stand-in for history-dependent validators (hysteresis, adaptive noise floor).  A tokenizer that
+    asks twice about a frame, or out of order, gets answers that no longer belong to the frames."""
+
+    def __init__(self, flags):
+        self.flags = flags
+        self.calls = 0
+
+    def __call__(self, frame):
+        k = self.calls
+        self.calls += 1
+        return self.flags[k] if k < len(self.flags) else False
+
+
+def _scripted_variant(params, flags, se):
+    mn, mx, ms, im, is_, mode = params
+    val = ScriptedValidator(flags)
+    frames = [("f", i) for i in range(len(flags))]
+    tok = _auditok()["ST"](val, mn, mx, ms, im, is_, mode)
+    try:
+        got = tok.tokenize(Src(frames))
+    except Exception as exc:
+        return "history-dependent validator: tokenizer raised %r" % (exc,)
+    if val.calls != len(flags):
+        return "the validator was asked %d times about %d frames" % (val.calls, len(flags))
+    if [(a, b) for _, a, b in got] != se:
+        return "a validator that answers by call order gives %r, a pure validator with the same answers %r" % ([(a, b) for _, a, b in got], se)
+    return None
+
+
+def fault_run(params, frames, k):
+    """Generator mode on a source that raises at read k: the tokens handed over before the failure."""
+    from .chk_reuse import RaisingSrc, Boom
+
+    ST = _auditok()["ST"]
+    tok = ST(_valid_tuple, *params)
+    out = []
+    try:
+        for t in tok.tokenize(RaisingSrc(frames, k), generator=True):
+            out.append(t)
+    except Boom:
+        pass
+    return out
+
+
 def _falsy_variant(params, flags, se, variant):
+    if variant == 7:
+        return _scripted_variant(params, flags, se)
     mn, mx, ms, im, is_, mode = params
     frames, val = falsy_frames(flags, variant)
     tok = _auditok()["ST"](val, mn, mx, ms, im, is_, mode)
@@ -300,9 +361,9 @@ def work_enum(task):
                         held = None
                 variant = 0
                 if oracle == "C01":
-                    variant = (idx % 7)  # 0: tuple frames only, 1: +string, 2: +PCM, 3..6: +falsy / zero-length frames
+                    variant = (idx % 8)  # 0: tuple frames only, 1: +string, 2: +PCM, 3..6: +falsy / zero-length frames, 7: scripted validator
                 elif oracle == "C04":
-                    variant = 3 + (idx % 4) if idx % 2 else 0
+                    variant = 3 + (idx % 5) if idx % 2 else 0
                 msg, nontrivial, se = judge(oracle, params, n, bits, memo, variant)
                 cov["evaluations"] += 1
                 cov["traces_validated_against_impl"] += 1
@@ -732,10 +793,10 @@ def replay(case):
             judge("C08", params, k, bits & ((1 << k) - 1), memo)
     msg, _, _ = judge(case["oracle"], params, n, bits, memo, variant=0)
     if msg is None and case["oracle"] == "C01":
-        for v in (1, 2, 3, 4, 5, 6):
+        for v in (1, 2, 3, 4, 5, 6, 7):
             msg = msg or judge("C01", params, n, bits, None, variant=v)[0]
     if msg is None and case["oracle"] == "C04":
-        for v in (3, 4, 5, 6):
+        for v in (3, 4, 5, 6, 7):
             msg = msg or judge("C04", params, n, bits, None, variant=v)[0]
     if msg is None and case["oracle"] == "C04":
         se = judge("C04", params, n, bits, None)[2]
